@@ -67,6 +67,23 @@ func checkSameKeyDelete(P *core.Program, R *core.Report, rule string, keep func(
 					if a == k {
 						continue
 					}
+					// look through address conversions (MustAccAddressFromBech32(rec.User), AccAddress(x), …)
+					for depth := 0; depth < 3; depth++ {
+						if ex, ok := a.(*ssa.Extract); ok && ex.Index == 0 {
+							a = ff.Fwd(ex.Tuple)
+						}
+						cv, ok := a.(*ssa.Call)
+						if !ok || cv.Common().IsInvoke() || cv.Common().StaticCallee() == nil || len(cv.Common().Args) != 1 {
+							break
+						}
+						if n := cv.Common().StaticCallee().Name(); !strings.Contains(n, "Bech32") && n != "String" {
+							break
+						}
+						a = ff.Fwd(cv.Common().Args[0])
+					}
+					if a == k {
+						continue
+					}
 					// the loaded record's own field (or getter)
 					own := false
 					os_ := ff.Origins(a)
